@@ -209,6 +209,30 @@ func runProgram(c *proto.Case, seed uint64) proto.Run {
 		}
 	}
 
+	// session-level config presets (C25): applied to the shell process's config,
+	// restored to the declared default after the run
+	var sess struct {
+		SessionConfig [][]string `json:"session_config"`
+	}
+	if len(c.Args) > 0 {
+		json.Unmarshal(c.Args, &sess)
+	}
+	for _, sc := range sess.SessionConfig {
+		if len(sc) == 3 {
+			if err := lang.ShellProcess.Config.Set(sc[0], sc[1], sc[2], nil); err != nil {
+				run.Err = "session config: " + err.Error()
+				return run
+			}
+		}
+	}
+	defer func() {
+		for _, sc := range sess.SessionConfig {
+			if len(sc) >= 2 {
+				lang.ShellProcess.Config.Default(sc[0], sc[1], nil)
+			}
+		}
+	}()
+
 	if c.Events {
 		verifhook.DrainEvents()
 		verifhook.EnableEvents(true)
